@@ -10,6 +10,7 @@ from collections import defaultdict
 from ..graph.graph import Node
 from ..graph.maskable_graph import MaskableGraph
 from ..arch.registers import Register
+from ..utils.collections import OrderedSet
 
 
 def _ordered(registers):
@@ -22,8 +23,9 @@ class InterferenceGraphNode(Node):
 
     def __init__(self, graph, vreg):
         super().__init__(graph)
-        self.temps = {vreg}
-        self.moves = set()
+        # Ordered, since the allocator loops over these:
+        self.temps = OrderedSet([vreg])
+        self.moves = OrderedSet()
         self.reg = vreg if vreg.is_colored else None
         self.reg_class = type(vreg)
 
@@ -112,7 +114,7 @@ class InterferenceGraph(MaskableGraph):
         """Combine n and m into n and return n"""
         # Copy associated moves and temporaries into n:
         n.temps |= m.temps
-        n.moves.update(m.moves)
+        n.moves |= m.moves
 
         # Update local temp map:
         for tmp in m.temps:
